@@ -226,6 +226,22 @@ def run_scenario(scn):
                 model.fit(np.array(pf["X"], dtype=float), np.array(pf["Y"], dtype=int), np.array(pf["Xv"], dtype=float), np.array(pf["Yv"], dtype=int))
         except Exception as ex:
             return None, ("exception", "%s: %s" % (type(ex).__name__, str(ex)[:200]))
+    model0 = model
+
+    def raised(ex):
+        """Inputs on which the metric itself is not finite are outside every property's domain: skipped, not judged."""
+        if scn["mode"] == "metric":
+            try:
+                df_ = dist_fn(scn, model0)
+                rws = list(I_train) + list(scn.get("I_val") or []) + list(Q)
+                with np.errstate(all="ignore"):
+                    vals = [df_(a, b) for a in rws for b in I_train if a != b]
+                if not np.all(np.isfinite(np.array(vals, dtype=float))):
+                    return None, ("skip", "non_finite_distance")
+            except Exception:
+                pass
+        return None, ("exception", "%s: %s" % (type(ex).__name__, str(ex)[:200]))
+
     hist = list(H.derive_history(scn))
     if scn.get("prepredict") and "prepredict" not in hist:
         hist.insert(0, "prepredict")
@@ -238,7 +254,9 @@ def run_scenario(scn):
             else:
                 model.fit(P(Xtr.copy()), Ytr.copy(), P(Z[list(scn["I_val"])].copy()), np.array(scn["Yv"], dtype=int), np.array(I_train) if passI else None, np.array(list(scn["I_val"])) if passI else None)
         except Exception as ex:
-            return None, ("exception", "%s: %s" % (type(ex).__name__, str(ex)[:200]))
+            return raised(ex)
+    if "stale_matrix" in hist and scn["mode"] in ("metric", "table"):
+        H.attach_stale_matrix(model, len(Z))
     CTX.update(on=True, model=model, snaps=[], log=[], nheaps=0)
     try:
         try:
@@ -290,7 +308,7 @@ def run_scenario(scn):
                     qres.append((int(x), int(y)))
     except Exception as ex:
         CTX["on"] = False
-        return None, ("exception", "%s: %s" % (type(ex).__name__, str(ex)[:200]))
+        return raised(ex)
     snaps, log = CTX["snaps"], CTX["log"]
     k = fin["best_k"]
     if len(nodes) != n:
